@@ -332,9 +332,14 @@ static unsigned long long path_key(const char *p) { const char *q = p ? strrchr(
 static pid_t pid_child[MAXMOD][NPIDKEY]; static bool pid_dead[MAXMOD][NPIDKEY];
 /* mode 0: look up; 1: fork a sleeper if the slot never had one; 2 (registration): also replace a dead one
    (a dead process would make a new pidfd readable at once) */
+static pid_t pid_hist[256]; static long pid_hist_key[256]; static int pid_nhist;
 static pid_t pid_of(long m, unsigned long long key, int mode) {
     if (m < 0 || m >= MAXMOD || key == 0 || key >= NPIDKEY) return 0;
-    if (mode == 2 && pid_child[m][key] && pid_dead[m][key]) { waitpid(pid_child[m][key], NULL, 0); pid_child[m][key] = 0; pid_dead[m][key] = false; }
+    if (mode == 2 && pid_child[m][key] && pid_dead[m][key]) {
+        /* the dead child is replaced; an event about it may still sit in a batch: remember which key it had */
+        if (pid_nhist < 256) { pid_hist[pid_nhist] = pid_child[m][key]; pid_hist_key[pid_nhist++] = (long)key; }
+        waitpid(pid_child[m][key], NULL, 0); pid_child[m][key] = 0; pid_dead[m][key] = false;
+    }
     if (mode >= 1 && !pid_child[m][key]) {
         /* the sleeper must outlive the THREAD that forks it (PR_SET_PDEATHSIG follows the forking thread: a child forked by a foreign
            thread of a script died with that thread and made its pid source fire): it watches the case process instead */
@@ -344,7 +349,7 @@ static pid_t pid_of(long m, unsigned long long key, int mode) {
     }
     return pid_child[m][key];
 }
-static long pid_key_of(pid_t pid) { for (int m = 0; m < MAXMOD; m++) for (int k = 1; k < NPIDKEY; k++) if (pid_child[m][k] == pid) return k; return 0; }
+static long pid_key_of(pid_t pid) { for (int m = 0; m < MAXMOD; m++) for (int k = 1; k < NPIDKEY; k++) if (pid_child[m][k] == pid) return k; for (int i = pid_nhist - 1; i >= 0; i--) if (pid_hist[i] == pid) return pid_hist_key[i]; return 0; }
 
 /* white-box: find the library's source object (for firing) */
 static ev_src_t *find_lib_src(m_mod_t *mod, m_src_types t, unsigned long long key) {
